@@ -272,6 +272,21 @@ def rule_thread_affinity(chk: Check, view: AsyncView, rid: str):
     for name in CONN_TASKS:
         cl = classes.get(f"conn.{name}", set())
         chk.add(rid, f"expected:C:{name}", cl == {"C"}, f"conn.{name} is on {sorted(cl)}, expected the connection executor only", chk.loc(view.fi(f"conn.{name}")))
+    # (a') an executor is a thread class only while it has a single worker: with more, two tasks of one wrapper run side by side
+    n_ex = 0
+    for key in ("node.__init__", "conn.__init__"):
+        r = view.results.get(key)
+        for e in (r.events if r is not None else ()):
+            if e.kind == "store_attr" and e.name.endswith("._executor") and e.recv == S("self"):
+                n_ex += 1
+                t = e.term
+                ok = t[0] == "call" and T.call_name(t).endswith("ThreadPoolExecutor")
+                if ok:
+                    mw = dict(t[3]).get("max_workers", t[2][0] if t[2] else None)
+                    ok = mw == T.const(1)
+                chk.add(rid, f"single-worker:{key}", bool(ok), f"{key} builds its executor as {T.show(t)[:90]}: the tasks of one wrapper are serialised only by a "
+                        "one-worker pool", chk.loc(view.fi(key), e.node))
+    chk.floor(rid, "executors built", n_ex, 2)
     # (b) _submit passes a bound method of the same object
     n_sub = 0
     for key, r in view.results.items():
